@@ -450,6 +450,113 @@ def inline_new_helpers(prog):
     return {"enabled": True, "new_helpers": sorted(["%s.%s" % k for k in new_methods] + ["%s:%s" % k for k in new_functions] + nested_done), "inlined_calls": total, "removed": removed + nested_done}
 
 
+def scalarise_helper_objects(prog):
+    """P44: scalar replacement of small helper objects.  A local `v = K(..)` with K a *new* class of the same module (no name of it in
+    the frozen list), used only as `v.field` / `v.method(..)` and never passed on, is dissolved: the constructor and every method call
+    are inlined and the fields become locals `v__field`.  An accumulator object with add()/result() thus gives back the parallel
+    local lists it replaced."""
+    known = known_names()
+    if known is None:
+        return 0
+    done = 0
+    for m in prog.modules.values():
+        newcls = {}
+        for st in m.tree.body:
+            if isinstance(st, ast.ClassDef) and not st.bases and not any(k.startswith(st.name + ".") for k in known):
+                meths = {x.name: x for x in st.body if isinstance(x, ast.FunctionDef)}
+                if all(isinstance(x, (ast.FunctionDef, ast.Expr, ast.Pass)) for x in st.body) and "__init__" in meths:
+                    newcls[st.name] = meths
+        if not newcls:
+            continue
+        hosts = [n for n in ast.walk(m.tree) if isinstance(n, ast.FunctionDef)]
+        for host in hosts:
+            if any(host in meths.values() for meths in newcls.values()):
+                continue
+            cands = []
+            for st in ast.walk(host):
+                if isinstance(st, ast.Assign) and len(st.targets) == 1 and isinstance(st.targets[0], ast.Name) and isinstance(st.value, ast.Call) and isinstance(st.value.func, ast.Name) \
+                        and st.value.func.id in newcls:
+                    cands.append((st.targets[0].id, st.value.func.id, st))
+            for v, kname, ctor in cands:
+                meths = newcls[kname]
+                # v is bound once and only used as v.<attr>
+                names = [x for x in ast.walk(host) if isinstance(x, ast.Name) and x.id == v]
+                stores = [x for x in names if isinstance(x.ctx, ast.Store)]
+                attr_values = {id(x.value) for x in ast.walk(host) if isinstance(x, ast.Attribute) and isinstance(x.value, ast.Name) and x.value.id == v}
+                if len(stores) != 1 or any(id(x) not in attr_values for x in names if isinstance(x.ctx, ast.Load)):
+                    continue
+                if any(isinstance(x, (ast.FunctionDef, ast.Lambda)) and x is not host and any(isinstance(y, ast.Name) and y.id == v for y in ast.walk(x)) for x in ast.walk(host)):
+                    continue
+                props = {nm for nm, d in meths.items() if any(isinstance(dd, ast.Name) and dd.id == "property" for dd in d.decorator_list)}
+                backup = copy.deepcopy(host.body)
+                # constructor call -> v.__init__(..) statement; property reads -> calls
+                ctor_args, ctor_kw = ctor.value.args, ctor.value.keywords
+
+                class Pre(ast.NodeTransformer):
+                    def visit_Assign(self, n):
+                        if n is ctor:
+                            return ast.copy_location(ast.Expr(value=ast.Call(func=ast.Attribute(value=ast.Name(id=v, ctx=ast.Load()), attr="__init__", ctx=ast.Load()), args=ctor_args, keywords=ctor_kw)), n)
+                        self.generic_visit(n)
+                        return n
+
+                    def visit_Attribute(self, n):
+                        self.generic_visit(n)
+                        if isinstance(n.value, ast.Name) and n.value.id == v and n.attr in props and isinstance(n.ctx, ast.Load):
+                            return ast.copy_location(ast.Call(func=n, args=[], keywords=[]), n)
+                        return n
+
+                    def visit_FunctionDef(self, n):
+                        if n is host:
+                            self.generic_visit(n)
+                        return n
+                Pre().visit(host)
+                plain = {}
+                for nm, d in meths.items():
+                    d2 = copy.deepcopy(d)
+                    d2.decorator_list = []
+                    if d2.body and isinstance(d2.body[0], ast.Expr) and isinstance(d2.body[0].value, ast.Constant) and len(d2.body) > 1:
+                        d2.body = d2.body[1:]
+                    if not d2.args.args:
+                        continue
+                    me = d2.args.args[0].arg
+                    for x in ast.walk(d2):
+                        if isinstance(x, ast.Name) and x.id == me:
+                            x.id = v
+                    d2.args.args[0].arg = v
+                    plain[nm] = d2
+
+                pref = "__%s__" % kname
+                for x in ast.walk(host):
+                    if isinstance(x, ast.Call) and isinstance(x.func, ast.Attribute) and isinstance(x.func.value, ast.Name) and x.func.value.id == v and x.func.attr in plain:
+                        x.args = [ast.copy_location(ast.Name(id=v, ctx=ast.Load()), x)] + x.args
+                        x.func = ast.copy_location(ast.Name(id=pref + x.func.attr, ctx=ast.Load()), x)
+
+                def resolver(call):
+                    f = call.func
+                    if isinstance(f, ast.Name) and f.id.startswith(pref) and f.id[len(pref):] in plain:
+                        return plain[f.id[len(pref):]], False
+                    return None
+                inline_in_function(host, resolver)
+                left = [x for x in ast.walk(host) if isinstance(x, ast.Call) and isinstance(x.func, ast.Name) and x.func.id.startswith(pref)]
+                if left:
+                    host.body = backup
+                    continue
+
+                class Fields(ast.NodeTransformer):
+                    def visit_Attribute(self, n):
+                        self.generic_visit(n)
+                        if isinstance(n.value, ast.Name) and n.value.id == v:
+                            return ast.copy_location(ast.Name(id="%s__%s" % (v, n.attr.lstrip("_")), ctx=n.ctx), n)
+                        return n
+                Fields().visit(host)
+                if any(isinstance(x, ast.Name) and x.id == v for x in ast.walk(host)):
+                    host.body = backup
+                    continue
+                ast.fix_missing_locations(host)
+                done += 1
+    return done
+
+
 def write_known_names(prog):
     names = set()
     for m in prog.modules.values():
